@@ -31,8 +31,11 @@ ASSUMPTIONS = [
 TECHNIQUE = ("Coq proof (executable model of Route/doRoute/RoutePID/defaultRoute/Request/Notify/QuerySession/Kick over arbitrary route functions "
              "and views; theorems by case analysis and induction over views/histories) + differential correspondence against the real "
              "route.RouteService, app.Cluster and app.Request/Notify/QuerySession/Kick on a real NodeService")
-LEVEL_TEXT = ("Machine-checked Coq theorems, unbounded: target (exactly one send, to the pid the view maps the rule's name to, nothing else), "
-              "default (an instance of the type on a working node), no_service (every listed cause: no send, exactly one no-service callback / "
-              "nothing), never_elsewhere, registered_wins (a panicking function does not fall back), view_updates (decision depends on the last "
-              "view only), monitor soundness. The model is tied to the Go code by running both on the same histories each run; the property "
-              "monitor is additionally evaluated on the implementation's own trace.")
+LEVEL_TEXT = ("Machine-checked Coq theorems (27, all closed under the global context), unbounded over views, route functions, "
+              "parameters, routes and histories: target (exactly one send, to the pid the view maps the rule's name to, nothing else), "
+              "default (an instance of the type on a working node; guards unique/non-reserved name, with a refutation witness for the "
+              "unguarded statement), no_service (every listed cause: no send, exactly one no-service callback / nothing), "
+              "never_elsewhere, request_not_dropped, reserved_never_target, registered_wins (a panicking function does not fall back), "
+              "front_* (QuerySession/Kick), view_updates (decision = function of the last view, last registrations, last default), "
+              "monitor soundness. The model follows the code repaired by hooks/C07-fix-*.patch and is tied to it by running both on "
+              "the same histories each run; the property monitor is additionally evaluated on the implementation's own trace.")
